@@ -6,12 +6,15 @@ from semantiva.data_io import DataSource
 from semantiva.data_processors.data_processors import DataOperation
 from semantiva.examples.test_utils import FloatDataType
 
+from vlib.components import REC
+
 
 class XSrcDefault(DataSource):
     """Outputs FloatDataType(value), default 7.0."""
 
     @classmethod
     def _get_data(cls, value: float = 7.0) -> FloatDataType:
+        REC.add("vlib.components_extra:XSrcDefault", None, {"value": value})
         return FloatDataType(float(value))
 
     @classmethod
@@ -31,4 +34,5 @@ class XMulDefault(DataOperation):
         return FloatDataType
 
     def _process_logic(self, data, factor: float = 3.0):
+        REC.add("vlib.components_extra:XMulDefault", data, {"factor": factor})
         return FloatDataType(data.data * factor)
